@@ -1,7 +1,7 @@
 From Coq Require Import ZArith Lia.
 From RsdnsModel Require Import Base GenConst GenCursor GenHeader GenSpec Cursor Names Labels Header Tracker RData Reader Writer.
 From RsdnsModel.Spec Require Import WireName RDataWire.
-From RsdnsModel.Proofs Require Import CursorSafe ListN Bits WriterLayout RecordRT RDataRT.
+From RsdnsModel.Proofs Require Import CursorSafe ListN Bits WriterLayout RecordRT RDataRT ParseSpec RecordFull.
 From RsdnsModel.Properties Require Import C02.
 Open Scope N_scope.
 Check (C02_header_fields : forall msg, 12 <= lenN msg ->
@@ -32,4 +32,16 @@ Check (C02_fixed_part_roundtrip : forall msg pre post c p s ty cl ttl rdlen,
 Check (C02_rdata_roundtrip_all_types : forall msg ty a,
   rdata_type_ok ty a = true -> ardata_ok a = true ->
   exists m, read_rdata msg ty (lenN (rdata_enc a)) = Some m /\ consumesW msg m (rdata_enc a) (rdata_val a)).
-Print Assumptions C02_header_fields. Print Assumptions C02_flags. Print Assumptions C02_opt_fields. Print Assumptions C02_opt_do. Print Assumptions C02_a_record_roundtrip_plain. Print Assumptions C02_fixed_part_roundtrip. Print Assumptions C02_rdata_roundtrip_all_types.
+Check (C02_record_roundtrip : forall msg nk c ls r pre post ty cl ttl a p s,
+  whole msg c -> expands msg None 0 (pos c) ls -> resume_at msg (pos c) r ->
+  Forall (fun l => label_ok (snd l) = true) ls -> wire_len (map snd ls) <= 255 ->
+  msg = pre ++ fixed_wire ty cl ttl (lenN (rdata_enc a)) ++ rdata_enc a ++ post -> lenN pre = r ->
+  rdata_type_ok ty a = true -> ardata_ok a = true ->
+  ty < 65536 -> cl < 65536 -> ttl < 4294967296 -> lenN (rdata_enc a) < 65536 ->
+  exists c1 c2 c3 mk m,
+    read_name msg nk c = Ok (join_labels (map snd ls), c1) /\
+    m_raw_marker msg p s c1 = (c2, Ok mk) /\
+    m_rtype mk = ty /\ m_rclass mk = cl /\ m_ttl mk = ttl /\ m_rdlen mk = lenN (rdata_enc a) /\ m_section mk = s /\
+    read_rdata msg ty (m_rdlen mk) = Some m /\ m c2 = (c3, Ok (rdata_val a)) /\
+    pos c3 = r + 10 + lenN (rdata_enc a)).
+Print Assumptions C02_header_fields. Print Assumptions C02_flags. Print Assumptions C02_opt_fields. Print Assumptions C02_opt_do. Print Assumptions C02_a_record_roundtrip_plain. Print Assumptions C02_fixed_part_roundtrip. Print Assumptions C02_rdata_roundtrip_all_types. Print Assumptions C02_record_roundtrip.
